@@ -170,7 +170,7 @@ EncodeVerdict(c, P) ==
             THEN <<"C07:reference decoder reads a different value">> ELSE <<>>)
            \o (IF c.fmt = "json" /\ ~JsonBytesOK(c) THEN <<"C07:JSON output violates the byte-level guarantees">> ELSE <<>>)
       ELSE <<>>)
-  \o (IF c.kind = "roundtrip" /\ c.outcome = "ok" /\ fe = 0
+  \o (IF c.kind = "roundtrip" /\ c.outcome = "ok" /\ (fe = 0 \/ fe > nenc)     \* the encoder reported no error
       THEN LET pc == c.calls[Len(c.calls)] IN
            IF pc.op # "parse" THEN <<"INFRA:no parse call recorded">>
            ELSE IF pc.err # "nil" THEN <<"C01:parser rejects the encoder's output">>
